@@ -378,6 +378,9 @@ func (f *Face) glyphDataFromGlyf(glyph gID) (GlyphOutline, error) {
 	}
 	var points []contourPoint
 	f.getPointsForGlyph(glyph, 0, &points)
+	if len(points) < phantomCount { // invalid composite glyph (bad component or nesting too deep)
+		return GlyphOutline{}, errGlyphOutOfRange(glyph)
+	}
 	segments := buildSegments(points[:len(points)-phantomCount])
 	return GlyphOutline{Segments: segments}, nil
 }
